@@ -6,7 +6,7 @@ import random
 from . import vcf as V
 
 
-def candidates(sc, sample_index):
+def candidates(sc, sample_index, include_hom=False):
     """indices of records that whatshap may phase for this sample: biallelic, heterozygous, fully called, and the first
     such record at its position -- or the first biallelic SNV at its position (what the reader keeps under --only-snvs)."""
     out = []
@@ -25,21 +25,28 @@ def candidates(sc, sample_index):
             continue
         gt = r["calls"][sample_index][r["format"].index("GT")]
         al, _ = V.gt_alleles(gt)
-        if al is None or None in al or len(al) != 2 or al[0] == al[1]:
+        if al is None or None in al or len(al) != 2:
+            continue
+        if al[0] == al[1] and not include_hom:
             continue
         out.append(i)
     return out
 
 
-def make_truth(rng, sc):
+def make_truth(rng, sc, hom_as_het=0.0):
     """truth[sample][record index] = (allele on hap 0, allele on hap 1) for every candidate."""
     truth = {}
     for si, s in enumerate(sc["samples"]):
         t = {}
-        for i in candidates(sc, si):
+        for i in candidates(sc, si, include_hom=hom_as_het > 0):
             gt = sc["records"][i]["calls"][si][sc["records"][i]["format"].index("GT")]
             al, _ = V.gt_alleles(gt)
             order = list(al)
+            if order[0] == order[1]:
+                # the reads claim this homozygous call is heterozygous (only meaningful with --distrust-genotypes)
+                if rng.random() >= hom_as_het:
+                    continue
+                order = [0, 1]
             rng.shuffle(order)
             t[i] = order
         truth[s] = t
@@ -131,12 +138,12 @@ def render_phase_input(sc, truth, per_sample, tag="PS", quality=None):
     return "\n".join(lines) + "\n"
 
 
-def generate(rng, k_files=(1, 3), error_rate=0.0, main_kwargs=None, reads_kwargs=None, input_tag="PS"):
+def generate(rng, k_files=(1, 3), error_rate=0.0, main_kwargs=None, reads_kwargs=None, input_tag="PS", hom_as_het=0.0):
     mk = dict(n_contigs=(1, 2), n_samples=(1, 2), n_records=(4, 10), phasing=None,
               gt_kinds=("homref", "het", "het", "het", "het", "het_rev", "homalt", "missing", "half"))
     mk.update(main_kwargs or {})
     sc = V.generate(rng, **mk)
-    truth = make_truth(rng, sc)
+    truth = make_truth(rng, sc, hom_as_het=hom_as_het)
     k = rng.randint(*k_files)
     files = make_reads(rng, sc, truth, k, error_rate=error_rate, **(reads_kwargs or {}))
     tags = [input_tag if input_tag in ("PS", "HP") else rng.choice(["PS", "HP"]) for _ in range(k)]
